@@ -260,7 +260,8 @@ def run(ctx):
         specs.append({
             "module": "checks.c03", "params": params, "bound": bound,
             "opts": {"time_horizon": 40.0, "drain": 3.0, "max_points": 8000,
-                     "free_switch_cost": 1},
+                     "free_switch_cost": 1,
+                     "time_jump_cost": None if ctx.quick else 1},
             "budget": 3000 if ctx.quick else 40000,
         })
     if not ctx.quick:
